@@ -628,8 +628,13 @@ func c05Gen(m *wdMon, blk, nBlocks, idx int, addrPool []addrCase) {
 			if r.Intn(5) == 0 {
 				addr = addrPool[r.Intn(len(addrPool))].Str
 			}
-			b.bridgeReq.Withdraws = append(b.bridgeReq.Withdraws, &goattypes.WithdrawalRequest{Id: m.next, Amount: amt, TxPrice: price, Address: addr})
-			lh.logf("EL: withdraw #%d %d sat price %d to %q", m.next, amt, price, addr)
+			id := m.next
+			if m.next%6 == 5 {
+				id |= 1 << 63 // ids are 64-bit numbers of the execution layer: the upper half of the range is as good as the lower
+				c.Count("withdrawal_ids_above_2^63", 1)
+			}
+			b.bridgeReq.Withdraws = append(b.bridgeReq.Withdraws, &goattypes.WithdrawalRequest{Id: id, Amount: amt, TxPrice: price, Address: addr})
+			lh.logf("EL: withdraw #%d %d sat price %d to %q", id, amt, price, addr)
 			m.next++
 		}
 		if ids := m.idsIn("pending", "processing", "paid", "canceled"); len(ids) > 0 && r.Intn(4) == 0 {
